@@ -17,7 +17,9 @@ COQ = os.path.join(ROOT, "coq")
 HARNESS = os.path.join(ROOT, "harness")
 OCAML = os.path.join(ROOT, "ocaml")
 WORK = os.path.join(ROOT, "work")
-REPO = "/repo"
+# the registered commands always use /repo; H264V_REPO lets tools/par_recheck.py run a copy of /verif against a scratch copy of
+# the repository (seeded changes are evaluated there, several at a time, without touching /repo)
+REPO = os.environ.get("H264V_REPO", "/repo")
 GUARD = "h264_reader_verif"
 ENV = dict(os.environ, CARGO_NET_OFFLINE="true", RUSTFLAGS="--cfg " + GUARD, RUST_BACKTRACE="0")
 H_DEV = os.path.join(HARNESS, "target", "debug", "h264v")
@@ -62,6 +64,11 @@ class BuildError(Exception):
 
 
 def build_harness():
+    if REPO != "/repo":
+        ct = os.path.join(HARNESS, "Cargo.toml")
+        txt = open(ct).read()
+        if '"/repo"' in txt:
+            open(ct, "w").write(txt.replace('"/repo"', '"%s"' % REPO))
     if not os.path.exists(os.path.join(HARNESS, "Cargo.lock")):
         shutil.copy(os.path.join(REPO, "Cargo.lock"), os.path.join(HARNESS, "Cargo.lock"))
     for prof in ([], ["--release"]):
